@@ -153,27 +153,32 @@ def split_netloc_table(ctx: Ctx):
 
     def find(delim, pred):
         return [(e, d) for e, dl, d, recv in ss if dl == delim and pred(recv)]
-    # userinfo
-    at = find("@", lambda recv: recv == netloc)
+    # userinfo: the LAST '@'
+    at = [(e, d) for e, dl, d, recv in ss if dl == "@"]
     ctx.instance(rule)
     ctx.ob(rule, fi.qual, "userinfo separator '@'", bool(at) and all(d == "last" for _e, d in at),
-           "the userinfo must be split off at the LAST '@' of the authority", where(fi, fi.node), sample="rpartition('@')")
-    userinfo_terms = {("item", e.value, 0) for e, _d in at} | {("sub", e.value, ("const", 0)) for e, _d in at}
-    colon_user = find(":", lambda recv: recv in userinfo_terms)
+           "the userinfo must be split off at the LAST '@' of the authority", where(fi, fi.node), sample="last '@'")
+    # every ':' split (user/password, host/port) is at the FIRST ':' of the text it is applied to
+    colons = [(e, d, recv) for e, dl, d, recv in ss if dl == ":"]
     ctx.instance(rule)
-    ctx.ob(rule, fi.qual, "user/password separator ':'", bool(colon_user) and all(d == "first" for _e, d in colon_user),
-           "user and password must be split at the FIRST ':' of the userinfo", where(fi, fi.node), sample="partition(':')")
+    ctx.ob(rule, fi.qual, "':' separators", len({id(e.node) for e, _d, _r in colons}) >= 2 and all(d == "first" for _e, d, _r in colons),
+           "user/password and host/port must be split at the FIRST ':' of the userinfo / of the text after the host "
+           f"(found {sorted({d for _e, d, _r in colons})} at {len({id(e.node) for e, _d, _r in colons})} site(s))", where(fi, fi.node),
+           sample="first ':'")
     # host/port: bracket-aware
     ctx.instance(rule)
-    lb = find("[", lambda recv: True)
-    rb = find("]", lambda recv: True)
-    port_after_bracket = [e for e, dl, d, recv in ss if dl == ":" and any(t[0] == "call" and t[1][0] == "attr" and t[2] == (("const", "]"),) for t in walk(recv))]
-    plain = [(e, d) for e, dl, d, recv in ss if dl == ":" and recv not in userinfo_terms and not any(t[0] == "call" and t[2] == (("const", "]"),) for t in walk(recv))]
-    ok = bool(lb) and bool(rb) and bool(port_after_bracket) and bool(plain) and all(d == "first" for _e, d in lb + rb + plain)
-    guarded = all(truth(("cmp", "In", ("const", "["), e.func[1]), e.state.facts) is False for e, _d in plain)
-    ctx.ob(rule, fi.qual, "host/port separator", ok and guarded,
-           "the port must be split at the ':' after ']' for bracketed hosts and at the first ':' otherwise", where(fi, fi.node),
-           sample="'[' .. ']' then ':' | first ':'")
+    lb = [(e, d) for e, dl, d, recv in ss if dl == "["]
+    rb = [(e, d) for e, dl, d, recv in ss if dl == "]"]
+
+    def after_bracket(recv):
+        return any(t[0] == "call" and t[1][0] == "attr" and t[2] and t[2][0] == ("const", "]") for t in walk(recv))
+    port_after_bracket = [e for e, d, recv in colons if after_bracket(recv)]
+    plain = [e for e, d, recv in colons if not after_bracket(recv)]
+    guarded = [e for e in plain if any((not fv) and k[0] == "cmp" and k[1] == "In" and k[2] == ("const", "[") for k, fv in e.state.facts.items())]
+    ok = bool(lb) and bool(rb) and bool(port_after_bracket) and bool(guarded) and all(d == "first" for _e, d in lb + rb)
+    ctx.ob(rule, fi.qual, "host/port separator", ok,
+           "the port must be split at the ':' after ']' for bracketed hosts and at the first ':' only when there is no '['",
+           where(fi, fi.node), sample="'[' .. ']' then ':' | first ':' when no '['")
     # empty user -> None, password None only when no ':' was present
     ctx.instance(rule)
     rets = [(s, v) for s, v, _n in r.returns if v[0] == "tuple" and len(v[1]) == 4]
